@@ -2,23 +2,23 @@ import Infretis.Model.EngineLoops
 /-!
 C12, audit pass: an exception that is NOT one of the engine's own leaves the polling loop of LAMMPS / CP2K.
 
-`lammps.py:460-561` and `cp2k.py:889-974` run the whole polling loop between `subprocess.Popen(...)` and
+As found, `lammps.py` and `cp2k.py` ran the whole polling loop between `subprocess.Popen(...)` and
 `return_code = exe.returncode` without any `try` (GROMACS has `with GromacsRunner(...)`: `__exit__` → `stop()`).
 The loop body calls code that can raise for reasons of its own, on a frame that depends on the trajectory:
 
 * `self.calculate_order(...)` → `order_function.calculate(system)` (user supplied class: `math.acos` domain error,
   `ZeroDivisionError`, an assertion, …; the call BEFORE `Popen` on the start configuration succeeds),
 * CP2K: `write_xyz_trajectory(traj_file, …)` (the engine writes the trajectory itself: `OSError` on a full disk / quota),
-* `msg_file.write(...)` (same).
+  (`msg_file.write(...)` is NOT such a place: `FileIO.write` swallows `OSError`).
 
 All of them sit AFTER the `pop`s of the frame and BEFORE `add_to_path` for it.  `fault = some k` = such an exception is
 raised while the frame with `step_nr = k` is processed (`none` = never).  (Exceptions delivered asynchronously —
 `KeyboardInterrupt` in `sleep`, `TimeoutExpired` from `exe.wait(timeout=360)` — take the same way out; the tie
 exercises the interrupt on the real engines, the model has the frame faults.)
 
-`Guard.asIs`  = the code as found: the exception propagates, nothing is signalled, the program keeps running.
-`Guard.guarded` = the smallest repair: the block from after `Popen(...)` up to (not including) `return_code = exe.returncode`
-wrapped in
+`Guard.guarded` = THE CODE AS IT IS NOW (repaired in /repo by the `fix:` commit "LAMMPS and CP2K stop the program when an
+exception leaves the polling loop"): the block from after `Popen(...)` up to (not including) `return_code = exe.returncode`
+is wrapped in
 ```
 try: …
 except BaseException:
@@ -28,13 +28,16 @@ except BaseException:
     raise
 ```
 (an `except`, not a `finally`: the normal paths keep their exact sequence of `poll()` calls).
+`Guard.asIs` = the RECORD of the code as found: no handler, the exception propagates, nothing is signalled, the program
+keeps running.  The tie runs both and accepts the real engines only if they side with ONE guard over all cases;
+siding with `asIs` fails the property predicate (`C12:<engine>:program-left-running-after-exception`).
 -/
 namespace Infretis.EngineFault
 open Infretis.Engine Infretis.EngineLoops
 
 inductive Guard
-  | asIs
-  | guarded
+  | asIs      -- record: as found, no handler
+  | guarded   -- the code as it is now
 deriving Repr, DecidableEq
 
 /-- what left the loop: one of the engine's own errors (`Err`) or the foreign exception of the body -/
